@@ -52,7 +52,6 @@ type verifArgFn struct{ f func(args []any) error }
 
 func (c verifArgFn) Call(fm *Frame, args []any, opts map[string]any) error { return c.f(args) }
 
-
 func (w *verifWorld) run(code string, conds []any) error {
 	ev := &Evaler{builtin: w.builtins(conds), global: &Ns{}, modules: map[string]*Ns{}}
 	ports, _ := verifPorts()
